@@ -134,6 +134,17 @@ def _job(args):
                 parts[lnames[i] if i < nl else rng2.choice(lnames)].append(x)
             subj = rng2.choice(lnames)
             objs = rng2.sample([L for L in lnames if L != subj], rng2.randint(1, nl - 1))
+            # now and then a layer lists a package AND, redundantly, one of that package's own sub packages: the sub package's
+            # siblings still belong to the layer through the package - wherever the names sort
+            redundant = False
+            if rng2.random() < 0.7:
+                opts = [(L, x, y) for L in lnames for x in parts[L] for y in cand if len(y) > len(x) and y[:len(x)] == x
+                        and any(len(z) > len(x) and z[:len(x)] == x and z[:len(y)] != y for z in cand)]
+                if opts:
+                    L0, _x0, y0 = rng2.choice(opts)
+                    parts[L0].append(y0)
+                    redundant = True
+                    out["stats"]["layer_listing_a_package_and_one_of_its_sub_packages"] = out["stats"].get("layer_listing_a_package_and_one_of_its_sub_packages", 0) + 1
             for names in namings:
                 nodes = [render(x, names) for x in anodes]
                 edges = [(render(a, names), render(b, names)) for a, b in aedges]
